@@ -125,7 +125,7 @@ fn eq_forms(a_u: &UnionCal, b_u: &UnionCal, a_c: Option<&Cal>, b_c: Option<&Cal>
     v
 }
 
-const N_EQ: u32 = 57;
+const N_EQ: u32 = 58;
 
 /// returns (description, expected equal?, comparisons)
 fn equality_scenario(id: u32) -> Option<(String, bool, Vec<(String, bool)>)> {
@@ -277,6 +277,13 @@ fn equality_scenario(id: u32) -> Option<(String, bool, Vec<(String, bool)>)> {
             let u2 = UnionCal::new(vec![c2.clone()], None);
             let un = UnionCal::new(vec![c.clone()], None);
             Some((format!("{} vs a plain Cal of the same days ({})", name, what), true, eq_forms(&un, &u2, Some(&c), Some(&c2), Some(&n), Some(&n))))
+        }
+        57 => {
+            // a settlement calendar that is not empty in structure yet never blocks a date of the range (holidays
+            // outside 1970-2200, and one at noon, which no date of the range equals)
+            let far = Cal::new(vec![to_ndt(days_from_civil(2201, 3, 3)), to_ndt(days_from_civil(1969, 6, 6)), to_ndt(days_from_civil(2024, 5, 6)) + chrono::Duration::hours(12)], vec![]);
+            let b = UnionCal::new(vec![cal_of(&merged)], Some(vec![far]));
+            Some(("settlement calendar whose holidays never fall on a date of the range".into(), true, eq_forms(&base_nosettle, &b, Some(&base_c), Some(&base_c), None, None)))
         }
         54..=56 => {
             // the same closed days written as a week mask in one calendar and as a (long) holiday list in the other
@@ -514,6 +521,10 @@ pub fn cases(tier: Tier) -> Vec<Case> {
                 out.push(Case::Name { s: mixed_case(&format!("{}|{}", a, b), mode) });
             }
         }
+    }
+    // U+212A KELVIN SIGN is an upper-case letter whose lower-case form is the ASCII k: these are case variants of stk
+    for n in ["ST\u{212A}", "st\u{212A}", "tgt,St\u{212A}|fed", "ldn|ST\u{212A}", "st\u{212A},ldn"] {
+        out.push(Case::Name { s: n.to_string() });
     }
     if tier == Tier::Thorough {
         let lb = lists(&BUILTIN);
